@@ -10,6 +10,7 @@
 (*  Api{call,env,op} ApiReply{call,env,op,code,st}  MAccept{tasks}         *)
 (*  Hook{point,task,env}  MUpdate{task,state,reason}  MMessage{task,event} *)
 (*  MKill{task}  MSubscribe{fid,assigned}  MReconcile  MStreamDropped      *)
+(*  MErrorEvent                                                             *)
 (*  CoreKilled  MGateReached{point,task}  MGateReleased{point,kind}        *)
 (*  Snapshot{envs,roster,alive}                                            *)
 (*  Poll{env,st,reached}  Quiesced{alive}  Orphans{alive}  End             *)
@@ -135,6 +136,7 @@ MApi ==
   /\ CASE Line.call = "create" -> Line.env \in Envs /\ NewEnv(Line.env)
        [] Line.call = "control" /\ Line.op = "START_ACTIVITY" -> Line.env \in Envs /\ StartSend(Line.env)
        [] Line.call = "destroy" -> Line.env \in Envs /\ Release(Line.env)
+       [] Line.call = "cleanupids" -> Line.env \in Envs /\ CleanupNamed(Line.env)
        [] OTHER -> Same
 MApiReply ==
   /\ Ev = "ApiReply"
@@ -186,6 +188,7 @@ MKillL ==
 MSub == Ev = "MSubscribe" /\ Line.fid = sfid /\ Subscribed(Line.assigned)
 MRec == Ev = "MReconcile" /\ IF conn = "stored" THEN Reconcile ELSE recheld /\ Same
 MDrop == Ev = "MStreamDropped" /\ DropConnection
+MErr == Ev = "MErrorEvent" /\ StreamError
 MCrash == Ev = "CoreKilled" /\ Crash
 MSnap == Ev = "Snapshot" /\ SnapOK /\ Same
 MPoll == Ev = "Poll" /\ PollOK /\ Same
@@ -197,11 +200,11 @@ MHookRel ==
   /\ Ev = "GateReleased"
   /\ IF Line.point = "task.roster.update" /\ (\E e \in Envs : env[e] = "rewriting")
        THEN RosterWrite(TheEnvIn("rewriting")) ELSE Same
-MOther == Ev \notin {"GateReleased", "Orphans", "Api", "ApiReply", "MAccept", "Hook", "MUpdate", "MMessage", "MGateReached", "MGateReleased", "MKill", "MSubscribe",
+MOther == Ev \notin {"GateReleased", "Orphans", "MErrorEvent", "Api", "ApiReply", "MAccept", "Hook", "MUpdate", "MMessage", "MGateReached", "MGateReleased", "MKill", "MSubscribe",
                      "MReconcile", "MStreamDropped", "CoreKilled", "Snapshot", "Poll", "Quiesced", "Fid"} /\ Same
 
 MatchLine ==
-  \/ MApi \/ MApiReply \/ MAcceptL \/ MHook \/ MHookRel \/ MUpdateL \/ MMessageL \/ MGate \/ MGateRel \/ MKillL \/ MSub \/ MRec \/ MDrop
+  \/ MApi \/ MApiReply \/ MAcceptL \/ MHook \/ MHookRel \/ MUpdateL \/ MMessageL \/ MGate \/ MGateRel \/ MKillL \/ MSub \/ MRec \/ MDrop \/ MErr
   \/ MCrash \/ MSnap \/ MPoll \/ MQuiesced \/ MOrphans \/ MFid \/ MOther
 
 \* the state in which every scenario starts: one core, booted, registered as framework 1, reconciled
@@ -257,7 +260,7 @@ Monitor ==
     [] Ev = "CoreKilled" ->
          /\ m_phase' = "restart" /\ m_own' = {} /\ m_roster' = {} /\ m_ever' = {} /\ m_envst' = <<>> /\ m_fresh' = TRUE /\ m_nsub' = 0
          /\ UNCHANGED <<m_fid, m_req, nviol>>
-    [] Ev = "MStreamDropped" ->
+    [] Ev \in {"MStreamDropped", "MErrorEvent"} ->
          /\ m_phase' = "reconnect" /\ m_nsub' = 0
          /\ UNCHANGED <<m_fid, m_own, m_roster, m_ever, m_envst, m_req, m_fresh, nviol>>
     [] Ev = "MKill" ->
